@@ -110,7 +110,7 @@ def run(ctx):
                 why='auth_mechanism=external must override credentials regardless of their presence')
         r.check('external-inside-loop', len(ext) == 1 and ext[0].idx > loop[0].idx if loop else False, site)
 
-    with ctx.rule('R19.3', 'scheme gate: plain TCP only when insecure connections are allowed', floor=6) as r:
+    with ctx.rule('R19.3', 'scheme gate: plain TCP only when insecure connections are allowed', floor=6, floor_notls=5) as r:
         rows = P.table(ctx, U + 'open', ['url', 'tuning', 'allow_insecure'])
         site = ctx.site(U + 'open')
         SC = U + 'populate_host_and_port($m0)?'
